@@ -293,8 +293,44 @@ fn run(case: &Value) -> Obs {
             note((format!("{which}: the output is not the input with whole values inserted / '<..>' spans replaced"), "bytes-not-conserved"), &mut fail);
         }
     }
+    // STRONG per-stage oracle (review A): valid UTF-8 body, no error.  The stream after each prefix of the filter list is
+    // taken from the implementation (single chunk); each built stage must meet its specification on (input, output) —
+    // text: exact closed form; insert: only whole copies of the value, at most one per tag token named on the path;
+    // replace: only non-overlapping, token-aligned ELEMENT SPANS of the target are substituted (filter_gen::stage_strong).
+    let mut strong_tags: Vec<String> = Vec::new();
+    if std::str::from_utf8(&body).is_ok() && all[0].1.err_at.is_none() && !kinds.is_empty() {
+        let mut prev = body.clone();
+        let mut complete = true;
+        for j in 0..fs.len() {
+            let r = run_chain(&fs[..=j], &headers, &[body.clone()]);
+            if r.err_at.is_some() {
+                complete = false;
+                break;
+            }
+            let cur = r.concat();
+            let built = probe_built.iter().any(|f| std::ptr::eq(*f, &fs[j]));
+            if !built {
+                if cur != prev {
+                    note((format!("filter #{j} builds no stage but changes the stream"), "unbuilt-filter-acts"), &mut fail);
+                }
+                continue;
+            }
+            match stage_strong(&prev, &cur, &fs[j]) {
+                Ok(None) => strong_tags.push(format!("strong-checked:{}", fs[j].action())),
+                Ok(Some(why)) => strong_tags.push(format!("strong-skipped:{why}")),
+                Err(why) => note((format!("stage #{j} ({}): {why}", fs[j].action()), "stage-spec-violated"), &mut fail),
+            }
+            prev = cur;
+        }
+        if complete && prev != one {
+            note(("the output of the chain is not the composition of its prefixes".to_string(), "pipeline-composition"), &mut fail);
+        }
+    }
     let e1 = all[0].1.err_at;
     let mut o = Obs::new(json!({"kinds": kinds, "one": hex(&one), "e1": e1, "sch": sch, "errs": errs})).trivial(kinds.is_empty() || body.is_empty());
+    strong_tags.sort();
+    strong_tags.dedup();
+    o.tags.extend(strong_tags);
     if let Some(shape) = case.get("shape").and_then(|s| s.as_str()) {
         o.tags.push(format!("shape:{shape}"));
     }
